@@ -12,6 +12,7 @@ import (
 	"flag"
 	"fmt"
 	"math/big"
+	"strings"
 
 	"github.com/ethereum/go-ethereum/common"
 
@@ -50,23 +51,25 @@ type Bind struct {
 }
 
 type Op struct {
-	ID   int    `json:"id"`
-	K    string `json:"k"` // T transfer, R relay recv, A relay ack, F add fee
-	C    int    `json:"c,omitempty"`
-	U    int    `json:"u,omitempty"`
-	Tok  int    `json:"tok,omitempty"`
-	Amt  string `json:"amt,omitempty"`
-	Dst  int    `json:"dst,omitempty"`
-	Rcv  int    `json:"rcv,omitempty"`
-	Cd   int    `json:"cd,omitempty"`
-	Cb   int    `json:"cb,omitempty"`
-	FTok int    `json:"ftok,omitempty"`
-	Fee  string `json:"fee,omitempty"`
-	Ref  int    `json:"ref,omitempty"` // R/A/F: id of the transfer op whose packet is meant (>= 100000: the packet sent on by the receive of op id-100000)
-	ARef int    `json:"aref,omitempty"` // CdAgent: refund user, receiver holder, destination chain, fee amount
-	ARcv int    `json:"arcv,omitempty"`
-	ADst int    `json:"adst,omitempty"`
-	AFee string `json:"afee,omitempty"`
+	ID    int    `json:"id"`
+	K     string `json:"k"` // T transfer, R relay recv, A relay ack, F add fee, X faulty relay (FK = kind, C = chain it is delivered to)
+	FK    int    `json:"fk,omitempty"`
+	Scale uint8  `json:"scale,omitempty"` // B: RegisterERC20Trace(chain C, local token Tok, origin token FTok of chain Dst, Scale)
+	C     int    `json:"c,omitempty"`
+	U     int    `json:"u,omitempty"`
+	Tok   int    `json:"tok,omitempty"`
+	Amt   string `json:"amt,omitempty"`
+	Dst   int    `json:"dst,omitempty"`
+	Rcv   int    `json:"rcv,omitempty"`
+	Cd    int    `json:"cd,omitempty"`
+	Cb    int    `json:"cb,omitempty"`
+	FTok  int    `json:"ftok,omitempty"`
+	Fee   string `json:"fee,omitempty"`
+	Ref   int    `json:"ref,omitempty"`  // R/A/F: id of the transfer op whose packet is meant (>= 100000: the packet sent on by the receive of op id-100000)
+	ARef  int    `json:"aref,omitempty"` // CdAgent: refund user, receiver holder, destination chain, fee amount
+	ARcv  int    `json:"arcv,omitempty"`
+	ADst  int    `json:"adst,omitempty"`
+	AFee  string `json:"afee,omitempty"`
 }
 
 type Spec struct {
@@ -93,24 +96,26 @@ type ChainObs struct {
 }
 
 type ROp struct { // resolved operation in model terms
-	K    string `json:"k"`
-	C    int    `json:"c"`
-	U    int    `json:"u"`
-	Tok  int    `json:"tok"`
-	Amt  string `json:"amt"`
-	Dst  int    `json:"dst"`
-	Rcv  int    `json:"rcv"`
-	Cd   int    `json:"cd"`
-	E    int    `json:"e"`
-	Cb   int    `json:"cb"`
-	FTok int    `json:"ftok"`
-	Fee  string `json:"fee"`
-	Src  int    `json:"src"`
-	Seq  uint64 `json:"seq"`
-	ARef int    `json:"aref"`
-	ARcv int    `json:"arcv"`
-	ADst int    `json:"adst"`
-	AFee string `json:"afee"`
+	K     string `json:"k"`
+	C     int    `json:"c"`
+	U     int    `json:"u"`
+	Tok   int    `json:"tok"`
+	Amt   string `json:"amt"`
+	Dst   int    `json:"dst"`
+	Rcv   int    `json:"rcv"`
+	Cd    int    `json:"cd"`
+	E     int    `json:"e"`
+	Cb    int    `json:"cb"`
+	FTok  int    `json:"ftok"`
+	Fee   string `json:"fee"`
+	Src   int    `json:"src"`
+	Seq   uint64 `json:"seq"`
+	ARef  int    `json:"aref"`
+	ARcv  int    `json:"arcv"`
+	ADst  int    `json:"adst"`
+	AFee  string `json:"afee"`
+	FK    int    `json:"fk"`
+	Scale uint8  `json:"scale"`
 }
 
 // Onward: the packet a receive callback sent on (agent multi-hop), as emitted by the chain (EventSendPacket)
@@ -163,6 +168,8 @@ type run struct {
 	tokens [][]common.Address // [chain][token id]; [c][0] = zero address
 	sent   []*sentPacket
 	byOp   map[int]*sentPacket
+	binds  []Bind           // registered so far (spec.Binds, then the accepted "B" operations)
+	emit   []common.Address // per chain: a user-deployed contract that emits whatever PacketSent event it is asked to
 }
 
 func (r *run) holderAddr(c int, h int) common.Address {
@@ -205,7 +212,9 @@ func (r *run) holderCode(c int, s string) int {
 	return -1
 }
 
-func spender(e int) common.Address { return common.BigToAddress(big.NewInt(int64(0xE0000000) + int64(e))) }
+func spender(e int) common.Address {
+	return common.BigToAddress(big.NewInt(int64(0xE0000000) + int64(e)))
+}
 
 func (r *run) tokenID(c int, a common.Address) int {
 	for i, t := range r.tokens[c] {
@@ -308,6 +317,10 @@ func (r *run) setup() {
 			}
 		}
 	}
+	for c := 0; c < s.NChains; c++ {
+		r.emit = append(r.emit, r.w.DeployEmitter(r.w.Chains[c]))
+	}
+	r.binds = append([]Bind{}, s.Binds...)
 	for _, b := range s.Binds {
 		if err := r.w.Bind(r.w.Chains[b.C], r.tokens[b.C][b.Loc], lower(r.tokens[b.Src][b.Ori]), r.chainName(b.Src), b.Scale); err != nil {
 			panic(fmt.Sprintf("bind %+v: %v", b, err))
@@ -466,11 +479,176 @@ func (r *run) exec(op Op) *Step {
 		if res := r.w.UserTx(r.w.Chains[op.C], r.w.Users[op.U], packetAddr, value, data); !res.OK() {
 			st.Class = 1
 		}
+	case "B":
+		// governance: RegisterERC20Trace in the middle of the history.  Only FIRST registrations (slot and trace unused):
+		// re-binding resets bindings.amount (Refuted/C03_rebind.v) and is outside the property.
+		b := Bind{C: op.C, Loc: op.Tok, Src: op.Dst, Ori: op.FTok, Scale: op.Scale}
+		if !r.bindFresh(b) {
+			return nil
+		}
+		st.Op = ROp{K: "B", C: b.C, Tok: b.Loc, Src: b.Src, FTok: b.Ori, Scale: b.Scale}
+		if err := r.w.Bind(r.w.Chains[b.C], r.tokens[b.C][b.Loc], lower(r.tokens[b.Src][b.Ori]), r.chainName(b.Src), b.Scale); err != nil {
+			st.Class = 1
+			st.Note = short(err.Error())
+		} else {
+			r.binds = append(r.binds, b)
+		}
+	case "X":
+		if op.FK == FaultForgedEvent {
+			// a contract that is NOT the packet contract emits a PacketSent event carrying a well-formed packet with the
+			// next sequence: the packet hook must ignore it (nothing is escrowed for it)
+			dst := op.Dst % r.spec.NChains
+			if dst == op.C {
+				return nil
+			}
+			seq := r.w.NextSeqContract(r.w.Chains[op.C], r.chainName(dst))
+			st.Op = ROp{K: "X", Src: op.C, Dst: dst, Seq: seq, FK: op.FK}
+			td := packettypes.TransferData{Receiver: lower(r.w.Users[op.U].Addr), Amount: common.LeftPadBytes(big.NewInt(1000).Bytes(), 32),
+				Token: lower(r.tokens[op.C][op.Tok]), OriToken: ""}
+			tdBz, err := td.ABIPack()
+			if err != nil {
+				panic(err)
+			}
+			p := packettypes.Packet{SrcChain: r.chainName(op.C), DstChain: r.chainName(dst), Sequence: seq, Sender: lower(r.w.Users[op.U].Addr),
+				TransferData: tdBz, CallData: []byte{}, CallbackAddress: zeroAddr.String(), FeeOption: 0}
+			pbz, err := p.ABIPack()
+			if err != nil {
+				panic(err)
+			}
+			data, err := packetABI.Events["PacketSent"].Inputs.Pack(pbz)
+			if err != nil {
+				panic(err)
+			}
+			res := r.w.UserTx(r.w.Chains[op.C], r.w.Users[op.U], r.emit[op.C], big.NewInt(0), data)
+			if n := len(SentPackets(toABCI(res.Events))); n > 0 {
+				st.Note = fmt.Sprintf("ACCEPTED: %d packets sent from a forged event", n)
+			} else {
+				st.Class = 1
+				if !res.OK() {
+					st.Note = "tx failed: " + res.VmError
+				}
+			}
+			break
+		}
+		sp := r.byOp[op.Ref]
+		if sp == nil {
+			return nil
+		}
+		st.Op = ROp{K: "X", Src: sp.src, Dst: sp.dst, Seq: sp.p.Sequence, FK: op.FK}
+		accepted, note := r.fault(sp, op)
+		if note == "skip" {
+			return nil
+		}
+		st.Note = note
+		if !accepted {
+			st.Class = 1
+		}
 	default:
 		panic("op kind " + op.K)
 	}
 	st.Obs = r.observe()
 	return st
+}
+
+// bindFresh: neither bindings[loc/src] nor bindingTraces[src/ori] is in use on chain b.C, and the binding makes sense.
+func (r *run) bindFresh(b Bind) bool {
+	n := r.spec.NChains
+	if b.C < 0 || b.C >= n || b.Src < 0 || b.Src >= n || b.C == b.Src || b.Loc < 1 || b.Loc > r.spec.NTok[b.C] || b.Ori < 0 || b.Ori > r.spec.NTok[b.Src] {
+		return false
+	}
+	for _, x := range r.binds {
+		if x.C == b.C && x.Src == b.Src && (x.Loc == b.Loc || x.Ori == b.Ori) {
+			return false
+		}
+	}
+	return true
+}
+
+// Fault kinds (Model/Bridge.v [Fault]).
+const (
+	FaultRecvAltered  = iota // MsgRecvPacket with the packet's sender replaced, genuine commitment proof
+	FaultAckForged           // MsgAcknowledgement whose result code was flipped, genuine acknowledgement proof
+	FaultRecvMisroute        // MsgRecvPacket delivered to chain op.C != destination
+	FaultAckMisroute         // MsgAcknowledgement delivered to chain op.C != source
+	FaultAckAltered          // MsgAcknowledgement with the packet's sender replaced, genuine acknowledgement
+	FaultForgedEvent         // PacketSent event emitted by a contract other than the packet contract (op.C, op.U, op.Tok, op.Dst)
+)
+
+// fault delivers a relay message that is not the authentic relay of sp's packet; returns whether the chain ACCEPTED it.
+// "skip": the fault does not apply to the packet in its current state (replay of a shrunk history).
+func (r *run) fault(sp *sentPacket, op Op) (bool, string) {
+	w := r.w
+	genuine, err := sp.p.ABIPack()
+	if err != nil {
+		panic(err)
+	}
+	altered := func() []byte {
+		q := sp.p
+		other := r.w.Users[2].Addr
+		if strings.EqualFold(q.Sender, lower(other)) {
+			other = r.w.Users[0].Addr
+		}
+		q.Sender = lower(other)
+		bz, err := q.ABIPack()
+		if err != nil {
+			panic(err)
+		}
+		return bz
+	}
+	ackOr := func() []byte {
+		if sp.ack != nil {
+			return sp.ack
+		}
+		a, _ := packettypes.NewAcknowledgement(0, []byte{}, "", w.Chains[sp.src].SenderAcc.String(), 0).ABIPack()
+		return a
+	}
+	x := op.C % r.spec.NChains
+	var e error
+	switch op.FK {
+	case FaultRecvAltered:
+		if sp.recvd {
+			return false, "skip"
+		}
+		_, e = w.DeliverRecvAt(w.Chains[sp.dst], sp.p, altered())
+	case FaultAckForged:
+		if !sp.recvd || sp.acked || sp.ack == nil {
+			return false, "skip"
+		}
+		var a packettypes.Acknowledgement
+		if err := a.ABIDecode(sp.ack); err != nil {
+			panic(err)
+		}
+		code, msg := uint64(0), ""
+		if a.Code == 0 {
+			code, msg = 1, "forged"
+		}
+		forged, err := packettypes.NewAcknowledgement(code, []byte{}, msg, a.Relayer, a.FeeOption).ABIPack()
+		if err != nil {
+			panic(err)
+		}
+		_, e = w.DeliverAckAt(w.Chains[sp.src], sp.p, genuine, forged)
+	case FaultRecvMisroute:
+		if x == sp.dst {
+			return false, "skip"
+		}
+		_, e = w.DeliverRecvAt(w.Chains[x], sp.p, genuine)
+	case FaultAckMisroute:
+		if x == sp.src {
+			return false, "skip"
+		}
+		_, e = w.DeliverAckAt(w.Chains[x], sp.p, genuine, ackOr())
+	case FaultAckAltered:
+		if !sp.recvd || sp.acked || sp.ack == nil {
+			return false, "skip"
+		}
+		_, e = w.DeliverAckAt(w.Chains[sp.src], sp.p, altered(), sp.ack)
+	default:
+		panic(fmt.Sprintf("fault kind %d", op.FK))
+	}
+	if e != nil {
+		return false, short(e.Error())
+	}
+	return true, "ACCEPTED"
 }
 
 func short(s string) string {
@@ -507,6 +685,7 @@ func runHistory(spec Spec) Result {
 func main() {
 	probe := flag.Bool("probe", false, "run the contract-behaviour probe")
 	probeAgent := flag.Bool("probe-agent", false, "run the agent-contract probe")
+	probeBind := flag.Bool("probe-bind", false, "run the bindToken probe (re-binding in the middle of a history)")
 	seed := flag.Uint64("seed", 1, "PRNG seed")
 	n := flag.Int("n", 20, "number of generated histories")
 	from := flag.Int("from", 0, "first history index to run")
@@ -522,6 +701,10 @@ func main() {
 	}
 	if *probeAgent {
 		runProbeAgent()
+		return
+	}
+	if *probeBind {
+		runProbeBind()
 		return
 	}
 	var specs []Spec
